@@ -83,7 +83,10 @@ def extra_cases(rng, tier):
         sc = {"op": rng.choice(["dl", "ul"]), "n": n, "decl": rng.random() < 0.6,
               "force": False, "kind": kind, "step": rng.randrange(0, steps + 1),
               "stale": rng.choice(stale[:11])}
-        cases.append(case_from_scenario(sc, rng, variant=rng.randrange(2)))
+        c = case_from_scenario(sc, rng, variant=rng.randrange(2))
+        if rng.random() < 0.4:
+            c["server"] = "real"
+        cases.append(c)
     return cases
 
 
@@ -104,9 +107,13 @@ def main():
         cases = [json.load(open(args.replay))["case"]]
     else:
         cases = []
-        for sc in scenarios:
+        for i, sc in enumerate(scenarios):
             cases.append(case_from_scenario(sc, rng, 0))
             cases.append(case_from_scenario(sc, rng, 1))
+            # the same scenario against the library's own server (LocalNode): "the same server"
+            c = case_from_scenario(sc, rng, i % 2)
+            c["server"] = "real"
+            cases.append(c)
         cases += extra_cases(rng, args.tier)
     results = run_cases("harness.drv_sdo_client:run_case", cases, jobs=args.jobs, timeout=30)
     traces = [r if not r.get("hang") else {"od": c["od"], "ev": [{"e": "hang", "n": 1}]}
